@@ -41,6 +41,9 @@ class Lock:
 
 
 def sh(cmd, cwd=None, env=None, timeout=None, inp=None):
+    if 'coqc' in cmd or 'make' in cmd:
+        # deep parse trees / long definition lists need more than the default 8 MiB stack in coqc
+        cmd = ['bash', '-c', 'ulimit -s unlimited 2>/dev/null || ulimit -s 4000000 2>/dev/null; exec "$@"', 'bash'] + list(cmd)
     p = subprocess.run(cmd, cwd=cwd, env=env or ENV, timeout=timeout, input=inp,
                        stdout=subprocess.PIPE, stderr=subprocess.STDOUT, text=True)
     return p.returncode, p.stdout
